@@ -557,6 +557,26 @@ func init() {
 				}
 			}
 		}
+		// corrupted / truncated literals followed by a long tail (word-at-a-time fast paths)
+		for _, lit := range []string{"null", "true", "false"} {
+			for _, tail := range []string{", 1]      ", "        ", "xxxxxxxx", ",\"abcdefgh\"", "e, 1]   ", "l, 1]   "} {
+				for _, ws := range []string{"", " ", "\n\t"} {
+					for i := 0; i < len(lit); i++ {
+						for _, c := range []byte("xyeEls\x00 ,]") {
+							b := []byte(ws + lit + tail)
+							b[len(ws)+i] = c
+							e.emit("rnull %s", hs(b))
+							e.emit("rbool %s", hs(b))
+							e.emit("dec bool %s true", hs(b))
+						}
+					}
+					for i := 1; i <= len(lit); i++ {
+						e.emit("rnull %s", hs([]byte(ws+lit[:i]+tail)))
+						e.emit("rbool %s", hs([]byte(ws+lit[:i]+tail)))
+					}
+				}
+			}
+		}
 		// every reader on every token class
 		toks := []string{"null", "true", "false", "0", "-1", "1.5", `"s"`, "[]", "{}", "[1]", `{"a":1}`, ",", ":", "]", "}", "x", ""}
 		for _, tk := range toks {
